@@ -1,6 +1,8 @@
 """C02 - round trip of safe dump / safe load (agreement and pairing clauses only)."""
 import sys
 
+from sa import crosslist as XL
+from sa import rules_r6b as R6B
 from sa import report, rules_repr as RR2, rules_emit as RE, rules_order as RO, rules_registry as RR
 from sa import rules_extra as RX
 
@@ -35,6 +37,11 @@ def run(ctx, repo):
     ctx.call(RX.r_alias_key_fresh, repo)
     ctx.call(RX.r_escape_introducer, repo)
     ctx.call(RX.r_fold_leading_space, repo)
+    ctx.call(R6B.r_flow_plain_agree, repo)
+    XL.emit_readable(ctx, repo)
+    XL.construct_protocol(ctx, repo)
+    XL.mapping_rules(ctx, repo)
+    XL.compose_identity(ctx, repo)
 
 
 if __name__ == '__main__':
